@@ -70,7 +70,8 @@ def gen_store_text(rng, codec, allow_empty=True, nls=("lf", "crlf", "cr")):
         lines = ["".join(rng.choice(alpha) for _ in range(rng.choice([0, 1, 3, 6, 12]))) for _ in range(n)]
         # a body line must not look like a coding line itself
         lines = [l for l in lines if declared_encoding(l) is None]
-        if cookie and rng.random() < 0.06:
+        if cookie and rng.random() < 0.06 and cls not in ("zh", "utf7", "jp2"):
+            # (not for the stateful 7-bit codecs: CPython's hz codec cannot decode some long runs it encodes)
             # a very long first line (generated banner, licence one-liner): the coding line is
             # still line 2, however many characters or bytes precede it
             plain = [c for c in alpha if c not in "\n\r\x0b\x0c\x1c\x1d\x1e\x85\u2028\u2029"] or ["x"]
